@@ -221,49 +221,87 @@ theorem good_flatten {c : Cache} {d : Disk} {l : List Hash} {ts : List (List Has
     · simp only [List.flatten_cons]
       exact childClosed_append hg.closed i4
 
-theorem walk_good (c : Cache) (d : Disk) (hinv : CacheInv c d) :
-    ∀ (f : Nat) (h : Hash) (ws : List Hash), walk c f h = some ws → GoodTrace c d h ws := by
+/-- The Put sequences `commit(h)` can produce when **every visit** of a node
+    iterates its external children in an order of its own (Go randomises map
+    iteration per `range` statement, so a node reached twice in one commit may
+    be walked in two different orders).  `f` bounds the recursion depth. -/
+def WalksN (c : Cache) : Nat → Hash → List Hash → Prop
+  | 0, _, _ => False
+  | f + 1, h, ws =>
+    match c.lookup h with
+    | none => ws = []
+    | some n => ∃ ks ts, (∀ x, x ∈ ks ↔ x ∈ n.ext) ∧ All2 (WalksN c f) (ks ++ n.inner) ts ∧ ws = ts.flatten ++ [h]
+
+theorem walksN_good (c : Cache) (d : Disk) (hinv : CacheInv c d) :
+    ∀ (f : Nat) (h : Hash) (ws : List Hash), WalksN c f h ws → GoodTrace c d h ws := by
+  intro f
+  induction f with
+  | zero => intro h ws hw; exact absurd hw (by simp [WalksN])
+  | succ f ih =>
+    intro h ws hw
+    unfold WalksN at hw
+    cases hl : c.lookup h with
+    | none =>
+      simp only [hl] at hw
+      subst hw
+      exact ⟨by simp, by simp [Has, hl], fun _ => trivial, by intro x hx; simp at hx⟩
+    | some n =>
+      simp only [hl] at hw
+      obtain ⟨ks, ts, hks, hall, hws⟩ := hw
+      subst hws
+      have hmem : ∀ r, r ∈ n.childs → r ∈ ks ++ n.inner := by
+        intro r hr
+        simp only [CNode.childs, List.mem_append] at hr ⊢
+        rcases hr with h1 | h1
+        · exact Or.inl ((hks r).mpr h1)
+        · exact Or.inr h1
+      have h2 := hall.imp (fun a b _ hab => ih a b hab)
+      obtain ⟨g1, g2, g3, g4⟩ := good_flatten h2
+      refine ⟨?_, fun _ => by simp, ?_, ?_⟩
+      · intro y hy
+        rcases List.mem_append.mp hy with hy | hy
+        · exact g1 y hy
+        · simp only [List.mem_singleton] at hy; subst hy; exact has_of_lookup hl
+      · intro seen
+        refine (post_append _ _ seen).mpr ⟨g3 seen, ?_, trivial⟩
+        intro n' hn' r hr
+        rw [hl] at hn'
+        cases hn'
+        rcases hinv h n hl r hr with hd | ⟨hc1, hc2⟩
+        · exact Or.inl hd
+        · exact Or.inr (List.mem_append_left _ (List.mem_reverse.mpr (g2 r (hmem r hc1) hc2)))
+      · intro x hx n' hn' r hr hc
+        rcases List.mem_append.mp hx with hx | hx
+        · exact List.mem_append_left _ (g4 x hx n' hn' r hr hc)
+        · simp only [List.mem_singleton] at hx
+          subst hx
+          rw [hl] at hn'
+          cases hn'
+          exact List.mem_append_left _ (g2 r (hmem r hr) hc)
+
+/-- the executable walk is the instance in which every visit uses the stored order. -/
+theorem walk_walksN (c : Cache) : ∀ (f : Nat) (h : Hash) (ws : List Hash), walk c f h = some ws → WalksN c f h ws := by
   intro f
   induction f with
   | zero => intro h ws hw; simp [walk_zero] at hw
   | succ f ih =>
     intro h ws hw
     rw [walk_succ] at hw
+    unfold WalksN
     cases hl : c.lookup h with
-    | none =>
-      simp only [hl, Option.some.injEq] at hw
-      subst hw
-      exact ⟨by simp, by simp [Has, hl], fun _ => trivial, by intro x hx; simp at hx⟩
+    | none => simp only [hl, Option.some.injEq] at hw; simp only; exact hw.symm
     | some n =>
-      simp only [hl] at hw
+      simp only [hl] at hw ⊢
       cases ha : allSome (n.childs.map (walk c f)) with
       | none => simp [ha] at hw
       | some ts =>
         simp only [ha, Option.some.injEq] at hw
-        subst hw
-        have h2 := (allSome_map_some (walk c f) n.childs ts ha).imp (fun a b _ hab => ih a b hab)
-        obtain ⟨g1, g2, g3, g4⟩ := good_flatten h2
-        refine ⟨?_, fun _ => by simp, ?_, ?_⟩
-        · intro y hy
-          rcases List.mem_append.mp hy with hy | hy
-          · exact g1 y hy
-          · simp only [List.mem_singleton] at hy; subst hy; exact has_of_lookup hl
-        · intro seen
-          refine (post_append _ _ seen).mpr ⟨g3 seen, ?_, trivial⟩
-          intro n' hn' r hr
-          rw [hl] at hn'
-          cases hn'
-          rcases hinv h n hl r hr with hd | ⟨hc1, hc2⟩
-          · exact Or.inl hd
-          · exact Or.inr (List.mem_append_left _ (List.mem_reverse.mpr (g2 r hc1 hc2)))
-        · intro x hx n' hn' r hr hc
-          rcases List.mem_append.mp hx with hx | hx
-          · exact List.mem_append_left _ (g4 x hx n' hn' r hr hc)
-          · simp only [List.mem_singleton] at hx
-            subst hx
-            rw [hl] at hn'
-            cases hn'
-            exact List.mem_append_left _ (g2 r hr hc)
+        exact ⟨n.ext, ts, fun _ => Iff.rfl,
+          (allSome_map_some (walk c f) n.childs ts ha).imp (fun a b _ hab => ih a b hab), hw.symm⟩
+
+theorem walk_good (c : Cache) (d : Disk) (hinv : CacheInv c d) :
+    ∀ (f : Nat) (h : Hash) (ws : List Hash), walk c f h = some ws → GoodTrace c d h ws :=
+  fun f h ws hw => walksN_good c d hinv f h ws (walk_walksN c f h ws hw)
 
 
 /-! ## writes reaching the disk -/
